@@ -45,7 +45,12 @@ def handleTile (op : String) (inp : Json) (impl : Option Json) : R (Option Json)
       | some ij => do
         let o ← getList getSegO ij
         pure (arrJ ((tileSpec units perArm checkLog2 o).map strJ)))
-    pure (some (obj [("out", arrJ (segs.map segOJ)), ("keep", keepJ), ("spec", spec),
+    let armsJ ← (match optFld inp "bins" with
+      | some bj => do
+        let rows ← getList getBinRaw bj
+        pure (arrJ ((byArm (rows.map (·.1))).map fun a => natJ a.length))
+      | none => pure Json.null)
+    pure (some (obj [("out", arrJ (segs.map segOJ)), ("keep", keepJ), ("spec", spec), ("arms", armsJ),
       ("specm", arrJ ((tileSpec units perArm checkLog2 segs).map strJ))]))
   | "by_arm" =>
     let rows ← getList getBinRaw (← fld inp "bins")
